@@ -108,6 +108,15 @@ def make_world(variant, two_clusters):
     for k in range(1, len(slots) + 1):
         for sub in itertools.combinations(slots, k):
             add([S(i) for i in sub], next(grp))
+    # the same intron chains on reads whose terminal blocks are NOT the annotated exons: truncated by 60 bp at either end, and extended by
+    # 60 bp at the start (such a read sorts before the full-length one: it is the first read with that chain in its region)
+    if not two_clusters:
+        for k in range(2, len(slots) + 1):
+            for sub in itertools.combinations(slots, k):
+                mid = [S(i) for i in sub[1:-1]]
+                add([S(sub[0], ds=60)] + mid + [S(sub[-1])], next(grp))
+                add([S(sub[0])] + mid + [S(sub[-1], de=-60)], next(grp))
+                add([S(sub[0], ds=-60)] + mid + [S(sub[-1])], next(grp))
     # reads with a polyA tail (polyT head) that end before annotated features further downstream (upstream): those features are
     # beyond the molecule's end and must not be counted as skipped
     if not two_clusters:
